@@ -14,6 +14,7 @@ from .values import (
     INF,
     Bool,
     Bottom,
+    ClassV,
     ExtV,
     FuncV,
     Interval,
@@ -84,6 +85,31 @@ class World:
                 for attr, expr in ci.class_attrs.items():
                     if isinstance(expr, (_ast.Call, _ast.Dict, _ast.List, _ast.Set)) and not attr.startswith("__"):
                         self.I.class_attr_value(ci, attr, expr, expr, self.state)
+
+        self.run_class_creation_hooks()
+
+    def run_class_creation_hooks(self) -> None:
+        """__init_subclass__ of an in-program base runs once per subclass at import time: evaluate it abstractly so that
+        the class attributes it sets are known (they are class state, not effects of an operation)."""
+        I = self.I
+        todo = []
+        for mi in self.prog.modules.values():
+            for ci in mi.classes.values():
+                for b in ci.mro[1:]:
+                    m = b.methods.get("__init_subclass__")
+                    if m is not None:
+                        todo.append((len(ci.mro), ci.fq, ci, m))
+                        break
+        if not todo:
+            return
+        I.class_init_phase = True
+        try:
+            for _, _, ci, m in sorted(todo, key=lambda t: t[:2]):
+                I.call_function(FuncV(fi=m, node=m.node, self_val=ClassV(ci=ci), module=m.module), [], {}, ci.node, self.state)
+                if self.state.bottom:
+                    raise AnalysisError(f"abstract evaluation of {m.qualname} for {ci.name} raises")
+        finally:
+            I.class_init_phase = False
 
     # ---------------------------------------------------------------- model
     def make_model(self, *, custom_gamma: bool = False, overrides: Optional[Dict[str, Val]] = None, tag: str = "model") -> Ptr:
